@@ -8,6 +8,11 @@ def R(pkg, run, quick, thorough, **kw):
 LAB = "./internal/zzverif/lab"
 
 CHECKS = {
+    "C02": {
+        "runs": [
+            R(LAB, "^TestC02", {"checks": 1200, "timeout": 600}, {"checks": 3000, "shards": 16, "timeout": 2400}),
+        ],
+    },
     "C01": {
         "runs": [
             R(LAB, "^TestC01", {"checks": 1500, "timeout": 600}, {"checks": 3000, "shards": 16, "timeout": 2400}),
@@ -39,6 +44,10 @@ CHECKS = {
 LEVELS = {}  # default: exploration
 
 RULES = {
+    "C02": "rapid draws a connection history of 1-5 exchanges for one of three proxies (direct, upstream HTTP proxy, MITM): request method GET/HEAD/POST, client Accept-Encoding none/gzip/identity, HTTP/1.0 or Connection: close on the last; origin response with status from 14 codes incl. 204/304, custom or empty reason, up to 7 fields with repeated and case-variant names plus Connection-nominated and other hop-by-hop fields, "
+           "framing Content-Length / chunked with generated chunk sizes / chunked with declared trailers / read-to-close (last exchange only) / bodiless with Content-Length, Transfer-Encoding+Trailer or no framing fields, body sizes around 4 KiB and 32 KiB, gzip when solicited by the proxy or by the client, text/event-stream bodies, raw response written in generated segments (splitting chunk-size lines and CRLFs), "
+           "incremental mode where the origin sends one chunk/event and blocks until the client has received it. The client parses the byte stream as a response sequence with the harness codec: k-th response carries the id of the k-th request, status, reason, per-name ordered fields in both directions, body bytes (gunzipped only when the proxy solicited gzip), trailers, exact message ends, undelimited-message detection, incremental delivery. "
+           "Non-trivial = an exchange that follows a HEAD/204/304/chunked/proxy-decoded reply on the same connection, or trailers, SSE or incremental mode. Distinct = distinct full histories.",
     "C01": "rapid draws a connection script of 1-4 requests for one of three long-lived proxies (direct, upstream HTTP proxy, MITM): method from 10 incl. custom tokens; absolute/origin form; path of RFC 3986 segments with upper/lower-case escapes, sub-delims, dot segments, empty segments, empty path; 11 query shapes; up to 8 end-to-end fields from a pool with repeated and case-variant names, "
            "Connection with nominated names, every hop-by-hop field, 0-2 pre-existing Via and X-Forwarded-For lines, X-Forwarded-Host/Url/Proto, Accept-Encoding and User-Agent present/absent, shuffled; body none/Content-Length/chunked with sizes at the 4 KiB and 32 KiB boundaries and generated chunk sizes; HTTP/1.0 and Connection: close on the last request; sequential or pipelined writing with generated cut points. "
            "The scripted next hop records raw bytes, parsed by the harness codec; oracle compares method, request-target bytes, Host, per-name ordered values in both directions, hop-by-hop absence, Via/XFF element lists, X-Forwarded-* fill-in, Accept-Encoding, User-Agent, body bytes. Non-trivial = non-direct config, >=2 requests on the connection, body >= 4 KiB, repeated names or Connection-nominated names. Distinct = distinct full request scripts.",
@@ -59,6 +68,11 @@ RULES = {
 }
 
 ASSUMPTIONS = {
+    "C02": ["responses are parsed by their own version and fields (an HTTP/1.1 chunked reply to an HTTP/1.0 request is accepted; RFC 9112's MUST NOT is not asserted)",
+            "read-to-close origin replies and origin 'Connection: close' are generated on the last exchange only (the proxy may close the client connection after them)",
+            "incremental delivery is asserted for event streams (origin chunks aligned to whole events) and for chunked bodies, with a 5 s bound and one retry",
+            "the TestingHTTPHandler variant is not claimed (net/http's server rewrites reason phrases and adds Date)",
+            "response-header rule effects are covered by C16 at function level"],
     "C01": ["outside the generated domain (semantics-preserving net/http normalisations the statement does not speak about): Pragma/Cache-Control, Expect: 100-continue, non-RFC path characters, Host contradicting an absolute-form authority, leading/trailing OWS in values, request trailers, chunked bodies on HTTP/1.0, empty User-Agent value",
             "origin-form requests on a plain listener never carry X-Forwarded-Proto (there the header selects the outgoing scheme by design)",
             "configured header rules and site credentials are covered by C16 / C06 checks, not here"],
@@ -77,6 +91,11 @@ ASSUMPTIONS = {
 # MANIFEST texts
 
 META = {
+    "C02": {
+        "technique": "property-based testing (rapid) over generated exchange histories on one keep-alive connection; round-trip oracle with an independent strict HTTP/1 response-sequence parser at the raw client; gate-controlled origin for incremental delivery",
+        "text": "Generated response scripts (status, reason, fields, framing, chunking, trailers, gzip, SSE, write segmentation) are served by a scripted origin through real proxies; the raw client must be able to parse exactly the k-th response for the k-th request with identical content, and incremental mode deadlocks if the proxy buffers. 1200 histories quick, 48000 thorough.",
+        "note": "Bounded liveness clauses (undelimited message, incremental delivery) use 5-10 s bounds with one retry; Go scheduler interleavings inside the proxy are sampled.",
+    },
     "C01": {
         "technique": "property-based testing (rapid) over generated keep-alive/pipelined connection scripts against real forwarder proxies; round-trip oracle: bytes recorded by a scripted next hop, parsed by an independent HTTP/1 codec, compared field by field with what the raw client wrote",
         "text": "Generated request scripts sent through three real proxy configurations (direct, upstream HTTP proxy, MITM with TLS origin); every request that is answered is compared at the next hop in both directions (nothing dropped, nothing invented) with the documented differences computed by a reference function. 1500 scripts quick, 48000 thorough.",
